@@ -5,6 +5,7 @@ Every generator takes (rng, tier) and returns a list of (name, [lines]) scripts;
 messages) pending per context poll, so the implementation is deterministic under `futures::select!`."""
 
 import itertools
+import os
 from . import mqtt as m
 
 STRS = [b'', b'a', b't/1', 'hé'.encode(), b'x' * 7]
@@ -1008,8 +1009,13 @@ def coalesce_feeds(rng, script, p):
     return (name, out)
 
 
+DEPTH = max(1, int(os.environ.get('VERIF_DEPTH', '3')))     # thorough tier: multiplier for the number of random walks
+
+
 def fam_walk(rng, tier, prefix, n_scripts, n_steps, **kw):
     out = []
+    if tier != 'quick':
+        n_scripts *= DEPTH
     for i in range(n_scripts):
         w = Walk(rng, f'{prefix}-{i}', **{k: (v(rng) if callable(v) else v) for k, v in kw.items()})
         out.append(w.run(n_steps(rng) if callable(n_steps) else n_steps))
@@ -1022,7 +1028,7 @@ def fam_common(rng, tier, prefix, n_quick=30, n_thorough=800, hold=True, tail=No
     CONNECT options, every acknowledgement form, inbound/outbound identifier collisions, several subscription identifiers per
     message). Each property's check runs such walks under its own oracle and the correspondence comparison."""
     out = []
-    for i in range(n_quick if tier == 'quick' else n_thorough):
+    for i in range(n_quick if tier == 'quick' else n_thorough * DEPTH):
         mp = rng.choice([None, None, 64])
         wts = dict(pub0=2, pub1=4, pub2=4, sub=2, unsub=1, ping=1, ack=9, inbound=5, pubrel=2, stream=2, pubbig=2 if mp else 0)
         w = Walk(rng, f'{prefix}-common-{i}', recv_max=rng.choice([None, None, 1, 2, 5]), max_pkt=mp,
